@@ -12,7 +12,8 @@ EXTENDS Integers, Sequences, FiniteSets, TLC
 CONSTANTS Peers, Targets, Self,     \* Self \in Targets: the node's own id as lookup target (populate / refresh)
           K, Calls, OpOf, TargetOf, ItemOf,   \* ItemOf[c] = [kind |-> "imm" | "mut", sig, seq, cas]  (cas = -1: none)
           Dist, Knows, Boot,        \* Dist[t][p]; Knows[p][t] = peers listed by p for target t; Boot = bootstrap peers
-          Timeout                   \* request timeout (ms) used by the design-level actions (traces bring their own expiry)
+          Timeout,                  \* request timeout (ms) used by the design-level actions (traces bring their own expiry)
+          Dev                       \* set of named deviations (negative controls of the invariants); {} = the code as it is
 VARIABLE s
 
 PQ == INSTANCE PutQ WITH WideCounters <- TRUE, EarlyMajority <- TRUE
@@ -26,7 +27,7 @@ TokenValid == 300000
 NoIn == [dir |-> "timeout", tid |-> -1, peer |-> "none", kind |-> "none", val |-> 0, code |-> 0]
 NoItem == [kind |-> "none", sig |-> 0, seq |-> 0, cas |-> -1]
 
-NoQ == [on |-> FALSE, kind |-> "fn", cand |-> {}, vis |-> {}, tids |-> {}, resp |-> {}, seen |-> <<>>, vals |-> <<>>, votes |-> 0]
+NoQ == [on |-> FALSE, kind |-> "fn", cand |-> {}, vis |-> {}, tids |-> {}, resp |-> {}, seen |-> <<>>, vals |-> <<>>]
 NoP == [on |-> FALSE, item |-> NoItem, tids |-> {}, acks |-> 0, errs |-> <<>>]
 NoC == [on |-> FALSE, kind |-> "fn", nodes |-> {}, seen |-> <<>>]
 
@@ -36,7 +37,7 @@ Init0 == [tid |-> 0, infl |-> {}, cap |-> 0,
           got |-> [c \in Calls |-> <<>>], done |-> [c \in Calls |-> "pending"], outcomes |-> [c \in Calls |-> 0],
           called |-> {}, mbox |-> <<>>, net |-> {},
           rt |-> <<>>,                 \* function: peer -> last_seen (ms); DOMAIN = members of the main routing table
-          lastRefresh |-> 0, lastPing |-> 0, server |-> FALSE, firewalled |-> TRUE, pubKnown |-> FALSE]
+          lastRefresh |-> 0, lastPing |-> 0, server |-> FALSE, firewalled |-> TRUE]
 
 Dom(f) == DOMAIN f
 Put1(f, k, v) == [x \in Dom(f) \cup {k} |-> IF x = k THEN v ELSE f[x]]
@@ -97,7 +98,10 @@ HandleApi(st, now) ==
                LET it == ItemOf[c]
                    cur == st0.p[t]
                    rule == IF it.kind = "mut" /\ cur.on /\ cur.item.kind = "mut" THEN PQ!LocalRule(cur.item, it) ELSE "go"
-               IN IF rule # "go" THEN Finish(st0, {c}, rule)
+                   \* negative control "cas_before_seq": the cas branch (which removes the in-flight put) runs before the seq test
+                   devRemove == "cas_before_seq" \in Dev /\ it.kind = "mut" /\ cur.on /\ cur.item.kind = "mut" /\ it.sig # cur.item.sig
+                                /\ it.cas = cur.item.seq /\ it.seq < cur.item.seq
+               IN IF rule # "go" THEN Finish(IF devRemove THEN [st0 EXCEPT !.p[t] = NoP] ELSE st0, {c}, rule)
                   ELSE LET fresh == [NoP EXCEPT !.on = TRUE, !.item = it]
                            stp == [st0 EXCEPT !.p[t] = fresh]
                        IN IF CacheUsable(st0, t, now)
@@ -194,7 +198,6 @@ Tick(stIn, input, now, expired, ord) ==
                                             !.q[t].resp = IF input.kind \in {"tok", "val"} THEN @ \cup {input.peer} ELSE @,
                                             !.q[t].seen = IF input.kind \in {"tok", "val"} THEN Put1(@, input.peer, now) ELSE @,
                                             !.q[t].vals = IF input.kind = "val" THEN Append(@, input.val) ELSE @,
-                                            !.q[t].votes = IF isResp THEN @ + 1 ELSE @,
                                             \* a value answer is returned to the readers before the responder is added to the table
                                             !.got = IF input.kind = "val"
                                                     THEN [c \in Calls |-> IF c \in st1.gs[t] /\ OpOf[c] = "get" THEN Append(st1.got[c], input.val) ELSE st1.got[c]]
@@ -208,13 +211,12 @@ Tick(stIn, input, now, expired, ord) ==
       r4 == StartPuts(st3, doneQs, ord, now)
       st4 == r4.st
       donePs == {t \in Targets : pc[t].end} \cup r4.failed
-      \* cleanup_done_queries: cache the finished lookups; the address vote of (one of) them may trigger a self-ping
-      voted == {t \in doneQs : st4.q[t].votes > 0}
+      \* cleanup_done_queries: cache the finished lookups (address votes: every peer of the scenarios reports the node's real
+      \* address, which is already confirmed when a behaviour starts, so no self-ping is triggered)
       st5 == [st4 EXCEPT !.cache = [t \in Targets |-> IF t \in doneQs /\ st4.q[t].cand # {}
                                                        THEN [on |-> TRUE, kind |-> st4.q[t].kind, nodes |-> Result(st4, t),
                                                              seen |-> [n \in Result(st4, t) |-> IF n \in Dom(st4.q[t].seen) THEN st4.q[t].seen[n] ELSE 0]]
-                                                       ELSE st4.cache[t]],
-                         !.pubKnown = @ \/ voted # {}]
+                                                       ELSE st4.cache[t]]]
       st6 == [st5 EXCEPT !.q = [t \in Targets |-> IF t \in doneQs THEN NoQ ELSE st5.q[t]],
                          !.p = [t \in Targets |-> IF t \in donePs THEN NoP ELSE st5.p[t]],
                          !.gs = [t \in Targets |-> IF t \in doneQs THEN {} ELSE st5.gs[t]],
@@ -223,7 +225,4 @@ Tick(stIn, input, now, expired, ord) ==
       st8 == FinishAll(st7, donePs, [t \in Targets |-> [cs |-> st5.ps[t], out |-> IF t \in r4.failed THEN "NoClosestNodes" ELSE pc[t].out]])
   IN st8
 
-\* ------------------------------ design-level behaviours (MC_Actor) ------------------------------
-\* time is abstract here: `now` stays 0 (no maintenance), expiry is an explicit environment action on the in-flight entries
-Orders == {<<a, b, c>> : a \in Targets, b \in Targets, c \in Targets} \* filtered to permutations by the MC module
 =============================================================================
